@@ -436,22 +436,7 @@ func (node *Node) finalizeNodeAcceptSnapshot(s *common.Snapshot, signers []crypt
 
 	node.TopoWrite(s, signers)
 
-	final := cache.asFinal()
-	external, err := node.getInitialExternalReference(s)
-	if err != nil {
-		panic(err)
-	}
-	cache = &CacheRound{
-		NodeId:    s.NodeId,
-		Number:    1,
-		Timestamp: s.Timestamp + config.SnapshotRoundGap + 1,
-		References: &common.RoundLink{
-			Self:     final.Hash,
-			External: external.Hash,
-		},
-		index: newRoundIndexCache(),
-	}
-	err = node.persistStore.StartNewRound(cache.NodeId, cache.Number, cache.References, final.Start)
+	final, cache, err := node.startFirstRoundAfterNodeAccept(s)
 	if err != nil {
 		panic(err)
 	}
@@ -464,6 +449,41 @@ func (node *Node) finalizeNodeAcceptSnapshot(s *common.Snapshot, signers []crypt
 	chain.StepForward()
 	chain.assignNewGraphRound(final, cache)
 	return nil
+}
+
+// startFirstRoundAfterNodeAccept makes round zero of a newly accepted chain,
+// which holds the accept snapshot only, final and starts round one. It is the
+// last durable step of finalizeNodeAcceptSnapshot; loadState repeats it when
+// the process stopped before it.
+func (node *Node) startFirstRoundAfterNodeAccept(s *common.Snapshot) (*FinalRound, *CacheRound, error) {
+	zero := &CacheRound{
+		NodeId:    s.NodeId,
+		Number:    s.RoundNumber,
+		Timestamp: s.Timestamp,
+	}
+	if err := zero.validateSnapshot(s, true); err != nil {
+		return nil, nil, err
+	}
+	final := zero.asFinal()
+	external, err := node.getInitialExternalReference(s)
+	if err != nil {
+		return nil, nil, err
+	}
+	cache := &CacheRound{
+		NodeId:    s.NodeId,
+		Number:    1,
+		Timestamp: s.Timestamp + config.SnapshotRoundGap + 1,
+		References: &common.RoundLink{
+			Self:     final.Hash,
+			External: external.Hash,
+		},
+		index: newRoundIndexCache(),
+	}
+	err = node.persistStore.StartNewRound(cache.NodeId, cache.Number, cache.References, final.Start)
+	if err != nil {
+		return nil, nil, err
+	}
+	return final, cache, nil
 }
 
 func (node *Node) getInitialExternalReference(s *common.Snapshot) (*FinalRound, error) {
